@@ -43,6 +43,9 @@ def _unrendered_uses(P: Project, cls, f: FuncInfo, names: set, seen: set):
             if isinstance(n, ast.Assign) and len(n.targets) == 1 and isinstance(n.targets[0], ast.Name) and isinstance(n.value, ast.Name) and n.value.id in user and n.targets[0].id not in user:
                 user.add(n.targets[0].id)
                 changed = True
+            if isinstance(n, ast.comprehension) and isinstance(n.iter, ast.Name) and n.iter.id in user and isinstance(n.target, ast.Name) and n.target.id not in user:
+                user.add(n.target.id)  # `[… for item in result …]`: the items are the user's too
+                changed = True
     parents = {}
     for x in ast.walk(f.node):
         for c_ in ast.iter_child_nodes(x):
@@ -66,6 +69,8 @@ def _unrendered_uses(P: Project, cls, f: FuncInfo, names: set, seen: set):
         if is_text:
             continue
         if isinstance(par, (ast.For, ast.AsyncFor)) and par.iter is n:
+            continue
+        if isinstance(par, ast.comprehension) and par.iter is n:
             continue
         if isinstance(par, ast.Assign) and par.value is n:
             continue  # (renaming, followed above)
@@ -494,6 +499,8 @@ def check(P: Project, R: Report) -> None:
         in_except = any(call in list(walk_local(h)) for t in walk_local(hm.node) if isinstance(t, ast.Try) for h in t.handlers)
         in_except = in_except or any(l.endswith(" is not None") and an.defs.get(l[: -len(" is not None")], ("",))[0] == "caught" for l in st.lits)
         miss = any(l.startswith("not ") and "_handlers.get" in an.origin(l) for l in st.lits) or any("handler" in l and l.startswith("not ") for l in st.lits)
+        # (`handler = self._handlers.get(method) or None; if handler is None:` / `if method not in self._handlers:`)
+        miss = miss or any("_handlers" in an.origin(l) and (an.origin(l).rstrip(">").endswith(" is None") or " not in " in an.origin(l)) for l in st.lits)
         no_method = any(l.startswith("not getattr(") and "'method'" in l for l in st.lits)
         where = f"{hm.module.rel}:{call.lineno}"
         if in_except:
